@@ -4,6 +4,7 @@ import (
 	"bytes"
 	"fmt"
 	"io"
+	"math"
 	"strings"
 
 	"github.com/tyler-sommer/stick"
@@ -48,6 +49,27 @@ var c17Hand = []string{
 	"{% for i in arr %}{% include 'part' with {'w': i} only %}{% endfor %}",
 	"{% for i in [] %}x{% else %}empty{{ s }}{% endfor %}",
 	"{% do fn(1) %}a{% set q = fn(2) %}b{{ q }}",
+	// what an extending template does outside its blocks: every load of these is a fault point like any other,
+	// whether or not what was loaded is used afterwards
+	"{% extends 'base' %}{% from 'lib' import lm %}{% block bb %}x{% endblock %}",
+	"{% extends 'base' %}{% import 'lib' as L %}{% block bb %}y{{ s }}{% endblock %}",
+	"{% extends 'base' %}{% use 'lay' %}{% block bb %}z{% endblock %}",
+	"{% extends 'base' %}{% set q = s ~ 'x' %}{% from 'lib' import lm as a %}{% block bb %}{{ q }}{{ a(1) }}{% endblock %}",
+	"{% extends 'child' %}{% import 'lib' as L %}{% from 'lib' import lm %}{% block cc %}{{ L.lm(1) }}{% endblock %}",
+	// templates that cannot succeed: a statement outside the blocks of an extending template fails
+	"MUSTFAIL{% extends 'base' %}{% from 'lib' import nosuch %}{% block bb %}x{% endblock %}",
+	"MUSTFAIL{% extends 'base' %}{% from 'nolib' import lm %}{% block bb %}x{% endblock %}",
+	"MUSTFAIL{% extends 'base' %}{% import 'nolib' as L %}{% block bb %}x{% endblock %}",
+	"MUSTFAIL{% extends 'base' %}{% use 'nolib' %}{% block bb %}x{% endblock %}",
+	"MUSTFAIL{% extends 'base' %}{% set q = nofunc() %}{% block bb %}x{% endblock %}",
+	"MUSTFAIL{% extends 'base' %}{% from 1 % 0 import lm %}{% block bb %}x{% endblock %}",
+	"MUSTFAIL{% extends 'base' %}{% set q %}{{ 1 % 0 }}{% endset %}{% block bb %}x{% endblock %}",
+	"MUSTFAIL{% extends 'base' %}{% use 'lay' with nosuch as b %}{% block bb %}x{% endblock %}",
+	"MUSTFAIL{% extends 'nobase' %}{% block bb %}x{% endblock %}",
+	"MUSTFAIL{% from 'lib' import nosuch %}never called",
+	"MUSTFAIL{% import 'nolib' as L %}never used",
+	"MUSTFAIL{% for i in 1..3 %}{{ i }}{% include 'nolib' %}{% endfor %}",
+	"MUSTFAIL{{ (0 - 1e300)..1e300 }}", "MUSTFAIL{% for i in 0..(10 ** 30) %}x{% endfor %}", "MUSTFAIL{% set r = 1..99999999999999999999 %}", "MUSTFAIL{{ big..nbig }}", "MUSTFAIL{{ 0..'1e300' }}",
 }
 
 func (p *c17) Init(tier string, seed int64) {
@@ -73,7 +95,8 @@ func (p *c17) sources(i int) (map[string]string, string, map[string]stick.Value,
 	switch {
 	case i < len(c17Hand):
 		src := c17Aux()
-		src["main"] = c17Hand[i]
+		src["main"] = strings.TrimPrefix(c17Hand[i], "MUSTFAIL")
+		ctx["big"], ctx["nbig"] = uint64(math.MaxUint64), -1e300
 		return src, "main", ctx, nil
 	case i == len(c17Hand):
 		return c17Aux(), "child", ctx, nil
@@ -374,6 +397,10 @@ func (p *c17) Run(i int) (res fw.Result) {
 	res.Evals++
 	if r0.pan != nil {
 		res.AddClass("fault-free-panic(C02)")
+		if i < len(c17Hand) {
+			// the hand-written templates are plain: a failure in one of them is reported, not thrown
+			fail("panic", "fault-free", fmt.Sprintf("Execute panicked instead of returning an error: %v", r0.pan))
+		}
 		return
 	}
 	ref := string(w0.Got)
@@ -385,6 +412,9 @@ func (p *c17) Run(i int) (res fw.Result) {
 		res.AddClass("fault-free:rendered")
 		if rs.err != nil || string(ws.Got) != ref {
 			fail("safe-differs", "safe", fmt.Sprintf("ExecuteSafe delivered %q (error %v), Execute %q", clip(string(ws.Got), 200), rs.err, clip(ref, 200)))
+		}
+		if i < len(c17Hand) && strings.HasPrefix(c17Hand[i], "MUSTFAIL") {
+			fail("swallowed-runtime-error", "mustfail", fmt.Sprintf("this template cannot succeed, but Execute returned nil and wrote %q", clip(ref, 200)))
 		}
 	} else {
 		res.AddClass("fault-free:error")
